@@ -37,16 +37,18 @@ def main(tier):
                 f.write(json.dumps(e) + "\n")
                 nw += 1
     files.append(wpath)
+    _, dn = funcs.survey(chk, files, lambda ev: ev.get("e") == "Host" and ev.get("paylen", 0) > 2)
     out = funcs.judge_files(chk, "TraceHostname", "TraceHostname.cfg", files, "host",
                             sigfn=lambda ev: "%s:L%s:%s" % (ev.get("e"), ev.get("L"), ev.get("codec", "")))
     chk.cov["evaluations"] = out["events"]
     chk.cov["wire_names_judged"] = nw
     chk.cov["sim_runs"] = len(results)
-    chk.cov["exhaustive"] = ("all L in 100..255 x " + ("domain lengths {3, 4, max-1, max} + every 40th" if q else "every domain length") +
+    chk.cov["exhaustive"] = not q
+    chk.cov["exhaustive_what"] = ("all L in 100..255 x " + ("domain lengths {3, 4, max-1, max} + every 40th" if q else "every domain length") +
                              " x 4 codecs x 6 payload-length classes")
-    chk.cov["distinct_nontrivial"] = sum(n for p, n, rc, e in prod)
+    chk.cov["distinct_nontrivial"] = dn
     chk.cov["rule"] = ("one evaluation = one build_hostname() + server-side extraction event, or one query name of the real "
-                       "client on the wire, judged by TLC; non-trivial = builder events (distinct (L, domain, codec, payload class))")
+                       "client on the wire, judged by TLC; non-trivial = distinct builder events with a payload of more than 2 bytes")
     chk.assumptions += ["TLC/JVM trusted"] + common.ASSUME_SIM[:2]
     return chk.finish()
 
